@@ -387,3 +387,146 @@ Proof. apply (plain_cd const_to_json). apply cdP_all. exact plain_const. Qed.
 
 Theorem json_plain_thm : S_json_plain.
 Proof. intros d _. apply json_plain_all. Qed.
+
+(* ------------------------------------------------------------------ *)
+(* 3. CodeData: objects with hidden defaults                            *)
+
+(* a field that is present or hidden *)
+Definition ofield (n : string) (o : option json) : list (str * json) :=
+  match o with Some j => [(lit n, j)] | None => [] end.
+Definition lfo {A} (f : A -> json) (l : list A) : option json :=
+  match l with [] => None | _ => Some (JList (map f l)) end.
+Definition bfo (b : bool) : option json := if b then Some (JBool true) else None.
+
+Lemma opt_field_ofield {A} n (f : A -> json) o : opt_field n f o = ofield n (option_map f o).
+Proof. now destruct o. Qed.
+Lemma list_field_ofield {A} n (f : A -> json) l : list_field n f l = ofield n (lfo f l).
+Proof. now destruct l. Qed.
+Lemma bool_field_ofield n b : bool_field n b = ofield n (bfo b).
+Proof. now destruct b. Qed.
+Lemma if_ofield (c : bool) n v :
+  (if c then [] else [(lit n, v)]) = ofield n (if c then None else Some v).
+Proof. now destruct c. Qed.
+
+(* the readers of such fields *)
+Definition omapM {A} (p : json -> res A) (o : option json) : res (option A) :=
+  match o with
+  | None => OK None
+  | Some j => match p j with OK v => OK (Some v) | Err e => Err e end
+  end.
+Definition odef {A} (p : json -> res A) (d : A) (o : option json) : res A :=
+  match o with None => OK d | Some j => p j end.
+Definition boolp (j : json) : res bool := match j with JBool b => OK b | _ => Err TypeError end.
+
+(* reading an object, field values abstract *)
+Lemma args_read a b c d e :
+  args_from_json (JObj (ofield "positional_only" a ++ ofield "positional_or_keyword" b
+                        ++ ofield "var_positional" c ++ ofield "keyword_only" d
+                        ++ ofield "var_keyword" e)) =
+  match odef strings_from_json [] a, odef strings_from_json [] b, omapM string_from_json c,
+        odef strings_from_json [] d, omapM string_from_json e with
+  | OK a, OK b, OK c, OK d, OK e =>
+      OK {| a_posonly := a; a_poskw := b; a_varpos := c; a_kwonly := d; a_varkw := e |}
+  | _, _, _, _, _ => Err TypeError
+  end.
+Proof. destruct a, b, c, d, e; vmr. Qed.
+
+Lemma function_read a d t :
+  function_from_json (JObj (ofield "args" a ++ ofield "docstring" d ++ ofield "type" t)) =
+  match odef args_from_json empty_args a, omapM string_from_json d, omapM fntype_from_json t with
+  | OK a, OK d, OK t => OK (mkFunction a d t)
+  | _, _, _ => Err TypeError
+  end.
+Proof. destruct a, d, t; vmr. Qed.
+
+Lemma addline_read l o :
+  addline_from_json (JObj ((lit "line", l) :: ofield "additional_offsets" o)) =
+  match l with
+  | JNull => match odef ints_from_json [] o with OK o => OK (mkAddline None o) | Err e => Err e end
+  | JInt l => match odef ints_from_json [] o with OK o => OK (mkAddline (Some l) o) | Err e => Err e end
+  | _ => Err TypeError
+  end.
+Proof. destruct o; vmr. Qed.
+
+Definition is_code (raw : json) : bool :=
+  match raw with JObj g => jhas g "filename" | _ => false end.
+
+Lemma arg_read_int z : as_arg (interp_json (JInt z)) = OK (AInt z).
+Proof. reflexivity. Qed.
+
+Lemma arg_read_jump t ro :
+  as_arg (interp_json (JObj ((lit "target", JInt t) :: ofield "relative" ro))) =
+  match odef boolp false ro with OK r => OK (AJump t r) | Err _ => Err TypeError end.
+Proof. destruct ro; vmr. Qed.
+
+Lemma arg_read_name sj ov :
+  as_arg (interp_json (JObj ((lit "name", sj) :: ofield "_index_override" ov))) =
+  match string_from_json sj, omapM int_from_json ov with
+  | OK s, OK ov => OK (AName s ov) | _, _ => Err TypeError end.
+Proof. destruct ov; vmr. Qed.
+
+Lemma arg_read_varname sj ov :
+  as_arg (interp_json (JObj ((lit "varname", sj) :: ofield "_index_override" ov))) =
+  match string_from_json sj, omapM int_from_json ov with
+  | OK s, OK ov => OK (AVarname s ov) | _, _ => Err TypeError end.
+Proof. destruct ov; vmr. Qed.
+
+Lemma arg_read_cellvar sj ov :
+  as_arg (interp_json (JObj ((lit "cellvar", sj) :: ofield "_index_override" ov))) =
+  match string_from_json sj, omapM int_from_json ov with
+  | OK s, OK ov => OK (ACellvar s ov) | _, _ => Err TypeError end.
+Proof. destruct ov; vmr. Qed.
+
+Lemma arg_read_freevar sj :
+  as_arg (interp_json (JObj [(lit "freevar", sj)])) =
+  match string_from_json sj with OK s => OK (AFreevar s) | Err _ => Err TypeError end.
+Proof. vmr. Qed.
+
+Lemma arg_read_noarg z : as_arg (interp_json (JObj [(lit "_arg", JInt z)])) = OK (ANoArg z).
+Proof. vmr. Qed.
+
+Lemma arg_read_const raw ov :
+  as_arg (interp_json (JObj ((lit "constant", raw) :: ofield "_index_override" ov))) =
+  match omapM int_from_json ov with
+  | OK ov =>
+      if is_code raw
+      then match as_cd (interp_json raw) with OK d => OK (AConst (KCode d) ov) | Err e => Err e end
+      else match as_const (interp_json raw) with OK k => OK (AConst (KInner k) ov) | Err e => Err e end
+  | Err _ => Err TypeError
+  end.
+Proof. destruct ov; vmr. Qed.
+
+Lemma instr_read nm argo nargs line offs :
+  as_instr (interp_json (JObj ((lit "name", nm) :: ofield "arg" argo
+                               ++ ofield "_n_args_override" nargs ++ ofield "line_number" line
+                               ++ ofield "_line_offsets_override" offs))) =
+  match nm with
+  | JStr [n] =>
+      match (match argo with Some c => as_arg (interp_json c) | None => OK (ANoArg 0) end),
+            omapM int_from_json nargs, omapM int_from_json line, odef ints_from_json [] offs with
+      | OK a, OK n_, OK l, OK o => OK (mkInstr n a n_ l o)
+      | Err e, _, _, _ => Err e
+      | _, _, _, _ => Err TypeError
+      end
+  | _ => Err TypeError
+  end.
+Proof. destruct argo, nargs, line, offs; vmr. Qed.
+
+Lemma cd_read b fnm fl nm ss ty fv fa ne al aa :
+  as_cd (interp_json (JObj ([(lit "blocks", b); (lit "filename", fnm);
+                             (lit "first_line_number", JInt fl); (lit "name", nm);
+                             (lit "stacksize", JInt ss)]
+                            ++ ofield "type" ty ++ ofield "freevars" fv
+                            ++ ofield "future_annotations" fa ++ ofield "_nested" ne
+                            ++ ofield "_additional_line" al ++ ofield "_additional_args" aa))) =
+  match as_blocks (interp_json b), string_from_json fnm, string_from_json nm,
+        omapM function_from_json ty, odef strings_from_json [] fv, odef boolp false fa,
+        odef boolp false ne, omapM addline_from_json al,
+        (match aa with Some c => as_args (interp_json c) | None => OK [] end) with
+  | OK blocks, OK filename, OK name, OK tp, OK fv, OK fa, OK ne, OK al, OK aa =>
+      OK (mkCD blocks filename fl name ss tp fv fa ne al aa)
+  | Err e, _, _, _, _, _, _, _, _ => Err e
+  | _, _, _, _, _, _, _, _, Err e => Err e
+  | _, _, _, _, _, _, _, _, _ => Err TypeError
+  end.
+Proof. destruct ty, fv, fa, ne, al, aa; vmr. Qed.
